@@ -972,9 +972,11 @@ func runInproc(b core.Batch, a args, em *core.Emitter) {
 		classes := map[string]bool{}
 		var cmu sync.Mutex
 		var streams [][]byte
+		var neverReads []bool
 		for k := 0; k < 8; k++ {
 			h := hostileControl(r)
 			streams = append(streams, h.stream)
+			neverReads = append(neverReads, h.noRead)
 			for _, c := range strings.Split(strings.TrimPrefix(h.class, "mutated:"), ",") {
 				classes[c] = true
 			}
@@ -984,6 +986,11 @@ func runInproc(b core.Batch, a args, em *core.Emitter) {
 		for k, s := range streams {
 			wg.Add(1)
 			cl := refclient.Connect(srv, fmt.Sprintf("10.3.%d.%d:%d", 1+batch%200, 1+k, 1000+batch))
+			if neverReads[k] {
+				// a peer that never reads: once 32 KiB are waiting for it, the server's writes to it block (as they do
+				// on a socket whose buffers are full) until the connection goes away
+				cl.Conn.Backpressure = 32 << 10
+			}
 			cmu.Lock()
 			clients = append(clients, cl)
 			cmu.Unlock()
